@@ -32,6 +32,8 @@ def run(ctx):
                                    timeout=2400).run(pool, storelib.default_violation(ctx), cov)
             for k, v in st["feats"].items():
                 feats[k] = feats.get(k, 0) + v
+        if not ctx.quick():
+            storelib.design_only(ctx, "big", dict(FlushSteps="TRUE", CrashAt='{"flush", "idle"}', MaxStmts=5, MaxRows=2, MaxFlush=2, MaxCrash=2, Tables='{"t1"}', Vals="{1}"), cov, timeout=600)
     finally:
         pool.close()
     for f in ("crash-flush-idle", "crash-flush-create", "crash-flush-rec", "recover"):
